@@ -118,7 +118,7 @@ func heapRun(c *fw.Ctx, ops []hop, opt heapOpts) (div *heapDiv, st heapStats) {
 	ref := map[int]Elem{}     // tag -> element held
 	tag := 0
 	update := func(e Elem, p int) { pos[e.Tag] = p }
-	q := heapq.New(func(a, b Elem) int { return cmp(a, b) })
+	q := heapq.New(cmp) // the function value itself: the queue must not see later changes of the monitor's variable
 	if opt.update {
 		q.Update(update)
 	}
@@ -324,7 +324,7 @@ func heapRun(c *fw.Ctx, ops []hop, opt heapOpts) (div *heapDiv, st heapStats) {
 			cmp = heapCmp(dir)
 			st.reorders++
 			c.Call("heapq.Reorder(dir=%d) len=%d", dir, len(ref))
-			q.Reorder(func(a, b Elem) int { return cmp(a, b) })
+			q.Reorder(cmp)
 		case 'C':
 			q.Clear()
 			ref = map[int]Elem{}
@@ -342,7 +342,7 @@ func heapRun(c *fw.Ctx, ops []hop, opt heapOpts) (div *heapDiv, st heapStats) {
 				order = append(order, tag) // not tracked: did not enter through Add or Set
 			}
 			c.Call("heapq.NewWithData(%d values)", len(data))
-			q = heapq.NewWithData(func(a, b Elem) int { return cmp(a, b) }, data)
+			q = heapq.NewWithData(cmp, data)
 			if opt.update {
 				q.Update(update)
 			}
@@ -531,4 +531,115 @@ func heapHash(ops []hop) uint64 {
 		h.Ints(o.Keys)
 	}
 	return h.Sum()
+}
+
+// bigElem is an element type of more than 128 bytes (some implementations
+// choose different code paths by element size).
+type bigElem struct {
+	Key, Tag int
+	Pad      [25]int64
+}
+
+// heapBigRun drives a queue of bigElem with an update callback through a short
+// random history and checks conservation, minimality of Front/Pop and the
+// reported positions after every operation. It returns a problem or "".
+func heapBigRun(r *rand.Rand, checkOrder bool, step func()) string {
+	pos := map[int]int{}
+	held := map[int]bigElem{}
+	q := heapq.New(func(a, b bigElem) int { return 2 * (a.Key - b.Key) })
+	q.Update(func(e bigElem, p int) { pos[e.Tag] = p })
+	tag := 0
+	mk := func() bigElem {
+		tag++
+		e := bigElem{Key: r.IntN(20), Tag: tag}
+		e.Pad[3], e.Pad[24] = int64(tag), int64(-tag)
+		return e
+	}
+	var log []string
+	check := func() string {
+		if q.Len() != len(held) {
+			return fmt.Sprintf("Len=%d, %d held", q.Len(), len(held))
+		}
+		for t, e := range held {
+			p, ok := pos[t]
+			got, gok := q.Peek(p)
+			if !ok || !gok || got != e {
+				return fmt.Sprintf("element tag %d (key %d) was last reported at %d (reported=%v) but Peek there gives tag %d (ok=%v)", t, e.Key, p, ok, got.Tag, gok)
+			}
+		}
+		if len(held) > 0 && checkOrder {
+			f := q.Front()
+			for _, e := range held {
+				if e.Key < f.Key {
+					return fmt.Sprintf("Front has key %d but key %d is held", f.Key, e.Key)
+				}
+			}
+		}
+		return ""
+	}
+	for i := 0; i < 120; i++ {
+		step()
+		switch x := r.IntN(10); {
+		case x < 1:
+			n := r.IntN(14)
+			vs := make([]bigElem, n)
+			held = map[int]bigElem{}
+			for j := range vs {
+				vs[j] = mk()
+				held[vs[j].Tag] = vs[j]
+			}
+			log = append(log, fmt.Sprintf("Set(%d elements)", n))
+			q.Set(vs)
+		case x < 5:
+			e := mk()
+			held[e.Tag] = e
+			log = append(log, fmt.Sprintf("Add(key %d tag %d)", e.Key, e.Tag))
+			if p := q.Add(e); pos[e.Tag] != p {
+				return fmt.Sprintf("%v: Add returned %d, last reported position %d", log, p, pos[e.Tag])
+			}
+		case x < 7:
+			log = append(log, "Pop")
+			e, ok := q.Pop()
+			if ok != (len(held) > 0) {
+				return fmt.Sprintf("%v: Pop ok=%v with %d held", log, ok, len(held))
+			}
+			if ok {
+				if h, is := held[e.Tag]; !is || h != e {
+					return fmt.Sprintf("%v: Pop returned an element that is not held (tag %d)", log, e.Tag)
+				}
+				for _, o := range held {
+					if checkOrder && o.Key < e.Key {
+						return fmt.Sprintf("%v: Pop returned key %d but key %d is held", log, e.Key, o.Key)
+					}
+				}
+				delete(held, e.Tag)
+			}
+		case x < 9:
+			if len(held) == 0 {
+				continue
+			}
+			var t int
+			k := r.IntN(len(held))
+			for tt := range held {
+				if k == 0 {
+					t = tt
+					break
+				}
+				k--
+			}
+			log = append(log, fmt.Sprintf("Remove(reported position of tag %d)", t))
+			got, ok := q.Remove(pos[t])
+			if !ok || got != held[t] {
+				return fmt.Sprintf("%v: Remove(%d) returned tag %d (ok=%v), want tag %d", log, pos[t], got.Tag, ok, t)
+			}
+			delete(held, t)
+		default:
+			log = append(log, "Reorder(reversed)")
+			q.Reorder(func(a, b bigElem) int { return 2 * (a.Key - b.Key) }) // same order again: a pure re-heapify
+		}
+		if pr := check(); pr != "" {
+			return fmt.Sprintf("%v: %s", log, pr)
+		}
+	}
+	return ""
 }
